@@ -90,6 +90,7 @@ type FnTrans struct {
 	nameCnt  map[string]int
 	abstractions []string
 	unknownCalls map[string]int
+	dynSplits    int // dynamic calls resolved by a case split over function constants
 	assumedUsed  map[string]bool
 	contractsUsed map[string]bool
 	localRefs []string // refs of allocations made by this function
@@ -1285,12 +1286,42 @@ func (t *FnTrans) mergeVals(ty types.Type, conds []string, vs []Val) Val {
 		return r
 	case VFunc:
 		// all the same function?
+		same := true
 		for _, v := range vs {
-			if v.Fn != vs[0].Fn {
-				return unknown(ty)
+			if v.Fn != vs[0].Fn || len(v.Alts) > 0 {
+				same = false
 			}
 		}
-		return vs[0]
+		if same {
+			return vs[0]
+		}
+		// one of several function constants: keep each with the condition
+		// under which the ite-chain of the phi selects it
+		var alts []FnAlt
+		var before []string
+		for i, v := range vs {
+			eff := and(append(append([]string{}, before...), conds[i])...)
+			if i == len(vs)-1 {
+				eff = and(before...)
+			}
+			if len(before) == 0 && i == len(vs)-1 {
+				eff = "true"
+			}
+			if len(v.Alts) > 0 {
+				for _, a := range v.Alts {
+					alts = append(alts, FnAlt{and(eff, a.Cond), a.Fn})
+				}
+			} else if f, ok := v.Fn.(*ssa.Function); ok {
+				alts = append(alts, FnAlt{eff, f})
+			} else {
+				return unknown(ty)
+			}
+			before = append(before, not(conds[i]))
+		}
+		if len(alts) > 8 {
+			return unknown(ty)
+		}
+		return Val{K: VFunc, T: ty, Alts: alts}
 	case VAddr:
 		same := true
 		for _, v := range vs {
